@@ -3,6 +3,7 @@ import FrappyProofs.Lemmas.CompatLawsRat
 import FrappyProofs.Lemmas.CopyHeap
 import FrappyProofs.Lemmas.DatainfoOpt
 import FrappyProofs.Lemmas.Variants
+import FrappyProofs.Lemmas.CompatRefl
 import FrappyModel.Generated.C03
 /-
 C03 — property theorems (nothing but property theorems, table facts and non-vacuity examples).
@@ -215,6 +216,38 @@ theorem rebuildC_equiv_fails_limits : ¬ rebuildC_equiv_statement Rat := by
   rw [h1, h2] at h
   cases h
 
+/-! ## a datatype against itself and against its own description; the users of `compatible()` -/
+
+open Frappy.Lemmas.C03V in
+/-- every datatype is compatible with itself ("same kind with equal limits") -/
+theorem compatible_self (t : DType F) (h : t.WF) (hal : GridAligned t) : compatible t t = .ok () :=
+  compatible_refl t h hal
+
+open Frappy.Lemmas.C03V in
+/-- a datatype — derived classes at any depth — and the datatype a client rebuilds from its description are
+compatible in both directions -/
+theorem compatible_with_own_description (a : CType F) (ha : a.WF) (hal : GridAligned a.erase) :
+    compatibleC a (rebuildC a) = .ok () ∧ compatibleC (rebuildC a) a = .ok () :=
+  described_compatible a ha hal
+
+/-- hence `ProxyModule._check_descriptive_data` logs no datatype warning for a parameter checked against the
+description of the very same parameter (only 'is read only' when the remote one is and the local one is not) -/
+theorem proxy_own_description_silent (a : CType F) (ha : a.WF) (hal : GridAligned a.erase) (pname : String)
+    (exported readonly remoteReadonly : Bool) :
+    proxyParam pname exported readonly a (some ⟨rebuildC a, remoteReadonly⟩) =
+      if !readonly && remoteReadonly then [.readOnly] else [] := by
+  obtain ⟨h1, h2⟩ := compatible_with_own_description a ha hal
+  simp only [proxyParam, h1, h2, passes]
+  cases readonly <;> cases remoteReadonly <;> rfl
+
+open Frappy.Lemmas.C03V in
+/-- … and `Writable.__init__` accepts a module whose `target` has the datatype of its `value` -/
+theorem writable_same_datatype_ok (a : CType F) (ha : a.WF) (hal : GridAligned a.erase) : writableCheck a a = .ok := by
+  have : compatibleC a a = .ok () := by
+    rw [compatibleC_erase a a (wf_leafy a ha)]
+    exact compatible_refl _ (erase_wf a ha) hal
+  simp only [writableCheck, this, passes, if_true]
+
 /-- the monitor decides `Nested` -/
 theorem nestedB_iff (a b : DType F) : nestedB a b = true ↔ Nested a b := decide_eq_true_iff
 
@@ -341,6 +374,14 @@ example : ∃ a : CType Rat, a.WF ∧ a.limitsFree = true ∧
       .tuple [.struct [("s", .tuple [.leaf, .leaf]), ("t", .text)], .limits .leaf] :=
   ⟨.struct [("s", .status [("IDLE", 100)]), ("t", .text 80)] [] false,
     by simp [CType.WF, CType.WFFields, DType.namesOK], by decide, rfl, rfl⟩
+
+/-- the hypotheses of `compatible_with_own_description` / `proxy_own_description_silent` are met by the datatype of
+`target_limits` (a `LimitsType`) and of a status parameter (a `StatusType`) -/
+example : ∃ a b : CType Rat, a.WF ∧ GridAligned a.erase ∧ a.cls = "limits" ∧ b.WF ∧ GridAligned b.erase ∧ b.cls = "status" :=
+  ⟨.limits (.leaf (.int 0 10)), .status [("IDLE", 100), ("BUSY", 300)],
+    by simp [CType.WF, CType.isNumeric, DType.WF, DType.isLeafKind, DType.intLimit],
+    by simp [CType.erase, GridAligned, GridAlignedList], rfl,
+    by simp [CType.WF, DType.namesOK], by simp [CType.erase, GridAligned, GridAlignedList], rfl⟩
 
 /-- the law classes are inhabited: the exact carrier -/
 example : LawfulFloatOps Rat ∧ CompatLaws Rat := ⟨inferInstance, inferInstance⟩
